@@ -37,6 +37,11 @@ def cases(tier, seed):
             shape = files.small_shape_for(rbs, rng, blocks=(2, 2), cap=700_000)
             d = files.wspec_desc(rng, shape, rate, bs, kind='numpy', il=[rng.choice([0, 3, -9]), rng.choice([1, 2])], xl=[5, 2])
             out.append({'id': 'np:%s:%s:%d' % (rate, 'x'.join(map(str, bs)), rep), 'file': d, 'nreq': 6, 'cost': 3})
+    # the fixture files of the repository (format versions 0.0.0 ... 0.2.8.dev, one of them with a single header block)
+    for rel in files.fixtures():
+        if rel in ('small-2d.sgz', 'small-irregular.sgz', 'small_hole.sgz'):
+            continue
+        out.append({'id': 'fix:' + rel, 'file': {'kind': 'fixture', 'rel': rel}, 'nreq': 4, 'cost': 1})
     out.append({'id': 'refuse-2d', 'file': {'kind': 'fixture', 'rel': 'small-2d.sgz'}, 'nreq': 1, 'cost': 1})
     out.append({'id': 'refuse-irregular', 'file': {'kind': 'fixture', 'rel': 'small-irregular.sgz'}, 'nreq': 1, 'cost': 1})
     return out
@@ -170,6 +175,10 @@ def run_case(case, ctx):
         t = {'shape': tuple(b - a for a, b in W), 'rate': sp.rate, 'bs': sp.bs, 'ilines': il[sl[0]], 'xlines': xl[sl[1]], 'samples': zs[sl[2]],
              'ntraces': (W[0][1] - W[0][0]) * (W[1][1] - W[1][0]), 'data_image': V[sl], 'file_header': bytes(fh),
              'fields': {k: a.reshape(nI, nX)[sl[0], sl[1]].reshape(-1) for k, a in F.items()}}
+        if sp.nhb != 2:
+            # original-format source (single header block, no SEG-Y file header, empty header-word table): the crop keeps that layout
+            t.update(nhb=sp.nhb, legacy_table=True)
+            del t['file_header']
         b, sp2 = conform.check(out, t, tag='crop:')
         for x in b:
             x['detail'] += ' [layout %s bs %s source shape %s request %s -> box %s, %s form]' % (fam, sp.bs, sp.shape, (ir, xr, zr), W, form)
